@@ -1,4 +1,6 @@
 import CacheVerif.Proofs.ConcCacheLin
+import CacheVerif.Proofs.ConcCacheSolo
+import CacheVerif.Proofs.DeepSource
 /-!
 # C02 — concurrent Cache/CacheOf calls are linearizable against the TTL-map semantics
 
@@ -161,5 +163,21 @@ example : ∃ s, run exInit
       (none, {}, 2), (some 1, {}, 0),
       (none, {}, 10), (some 1, {}, 0) ] = some s ∧
     (s.l 1).pc = .ret ∧ (s.l 1).result = some (.valTTL 1 (-7) true) := ⟨_, rfl, by decide, by decide⟩
+
+/-! ### The concurrent model, run by one thread, is the source text
+
+`Proofs/ConcCacheSolo.lean`: every call of M5 executed alone from `idle` to `ret` with the clock standing still
+(for `DeleteExpired`: the traversal handing over the entries of the map in order) ends in the state, result and
+fired callbacks of the sequential step; `DeepSource.step`: that step is what the interpreter of the Go subset
+computes from the method bodies printed from the working tree.  So what M5's steps compute and carry in their
+locals is tied to the current text of `xsync_map.go` / `xsync_mapof.go`; *where* a call may be interrupted is
+tied by the step-level trace acceptance. -/
+
+open Proofs.ConcCacheSolo in
+theorem C02_solo_is_source (g : G K V) (op : COp K V) (T : Deep.Twin K V) (hT : DeepSource.IsTwin T) :
+    ∃ cs, obs g (soloSteps g L.init (start op :: cs)) =
+      (Deep.deepStep T (view g) (toSpec op)).map fun r => (r.1, r.2.cbs, Pc.ret, some r.2.out) := by
+  obtain ⟨cs, h⟩ := solo_eq_m2 g op
+  exact ⟨cs, by rw [h, DeepSource.step _ _ T hT]; rfl⟩
 
 end Props.C02
